@@ -412,8 +412,13 @@ MaintInvisibleStep ==
   (hist' # hist /\ hist'[Len(hist')].a \in {"gc", "restart", "compact"}) =>
     /\ \A n \in DsName : Exists(n) =>
          /\ Entities(n)' = Entities(n)
-         /\ \A s \in 0..nextPos[dsInc[n]] :
-              Changes(n, s, 0, TRUE)' = Changes(n, s, 0, TRUE)
+         \* compaction keeps the first of a run of identical versions, so the newest version of an
+         \* entity may move to an earlier position: the latest-only feed is unchanged as a collection
+         /\ ToSet(Changes(n, 0, 0, TRUE)'.items) = ToSet(Changes(n, 0, 0, TRUE).items)
+         /\ Len(Changes(n, 0, 0, TRUE)'.items) = Len(Changes(n, 0, 0, TRUE).items)
+         /\ hist'[Len(hist')].a # "compact" =>
+              \A s \in 0..nextPos[dsInc[n]] : \A lo \in BOOLEAN :
+                 Changes(n, s, 0, lo)' = Changes(n, s, 0, lo)
     /\ \A t \in 0..clock : \A e \in Ent : \A sc \in SUBSET DsName :
          /\ Partials(e, sc, t)' = Partials(e, sc, t)
          /\ Out(e, "*", sc, t)' = Out(e, "*", sc, t)
